@@ -109,7 +109,12 @@ def gen_case(seed, i):
             dflags += ["--" + k, v]
     return {"i": i, "world": w.to_json(), "roots": roots, "times": times, "gflags": gflags, "dflags": dflags,
             "prios": prios, "pats": pats, "n": n, "rf": rf, "isolate_g": isolate_g, "op": rng.choice(["remove", "remove", "link", "softlink", "move", "dedupe"]),
-            "fmt": rng.choice(["default", "json"])}
+            "fmt": rng.choice(["default", "json"]),
+            # how `group` names its input paths (absolute; relative to its working directory; relative to --base-dir,
+            # the command started elsewhere) and where the dedupe command is started: options inherited from the
+            # report header belong to the report's base directory, not to the later working directory
+            "gspell": rng.choice(["abs", "abs", "abs", "rel", "basedir"]),
+            "dcwd": "base" if (rng.random() < 0.5 and not any(x.startswith("./") for x in dflags)) else "world"}
 
 
 def gen_cases(tier, seed):
@@ -304,8 +309,11 @@ def run_case(case):
                 st = os.lstat(apb)
                 labels[st.st_ino] = dict(case["times"][src])
                 labels_by_path[apb.decode("utf-8", "surrogateescape")] = case["times"][src]
-        g = ops.group(rd, roots, case["gflags"] + ["--threads", "1"] + (["-f", "json"] if case["fmt"] == "json" else []),
-                      env=env, labels=labels, seed=3)
+        gsp = case.get("gspell", "abs")
+        groots = roots if gsp == "abs" else [(b"./" if s2b(r).startswith(b"-") else b"") + s2b(r) for r in case["roots"]]
+        g = ops.group(rd, groots, (["--base-dir", rd.world] if gsp == "basedir" else []) + case["gflags"] + ["--threads", "1"] + (["-f", "json"] if case["fmt"] == "json" else []),
+                      env=env, labels=labels, seed=3, cwd=rd.base if gsp == "basedir" else rd.world)
+        dcwd = rd.base if case.get("dcwd") == "base" else rd.world
         if g.rc != 0:
             return {"violations": [], "nontrivial": False, "sig": None, "probes": {"group_failed": 1}, "invocations": 1,
                     "info": {"err": g.err.decode("utf-8", "replace")[-200:]}}
@@ -315,10 +323,10 @@ def run_case(case):
         op = case["op"]
         target = os.path.join(rd.world, "T")
         dry = ops.dedupe(rd, op, g.out, extra=dflags + ["--dry-run"], target=target, env=env, labels=labels,
-                         now_ns=T0_NS + 3600 * 10**9, seed=4, cwd=rd.world)
+                         now_ns=T0_NS + 3600 * 10**9, seed=4, cwd=dcwd)
         before = inventory(rd.world)
         real = ops.dedupe(rd, op, g.out, extra=dflags, target=target, env=env, labels=labels,
-                          now_ns=T0_NS + 3600 * 10**9, seed=4, threads_env=1, cwd=rd.world)
+                          now_ns=T0_NS + 3600 * 10**9, seed=4, threads_env=1, cwd=dcwd)
         after = inventory(rd.world)
 
         def V(clause, detail):
